@@ -17,10 +17,14 @@ AllQ(a, b) == (DOMAIN a) \cup (DOMAIN b)
 NewAggs(pre, post, q) == { x \in AggsOf(post, q) : ~\E y \in AggsOf(pre, q) : y.ts = x.ts }
 Key(r) == <<r.q, r.id>>
 
+\* necessary (the property's "only if") and sufficient side of the admission guard: a reporter whose stake is below one
+\* whole token has no reporting power and is turned away even when governance has set the minimum stake lower (F-26)
+HasPower(e) == Pow10(6) \preceq Stake(e)
 CheckSubmit(e, postqs, postreps) ==
-  LET g == Admit(qs, e.q, e.kind, e.h, ReporterOk(e)) IN
+  LET g == Admit(qs, e.q, e.kind, e.h, ReporterOk(e))
+      gs == Admit(qs, e.q, e.kind, e.h, ReporterOk(e) /\ HasPower(e)) IN
   (IF e.ok /\ ~g THEN {"ReportAcceptedOnlyIntoOpenRound"} ELSE {})
-  \cup (IF ~e.ok /\ g /\ e.vclass = "valid" THEN {"ReportIntoOpenRoundAccepted"} ELSE {})
+  \cup (IF ~e.ok /\ gs /\ e.vclass = "valid" THEN {"ReportIntoOpenRoundAccepted"} ELSE {})
   \cup (IF e.ok THEN
           \* the report sits in the current round of its query, once, with the submitted value, replacing any earlier one
           LET c == Cur(postqs, e.q)
